@@ -95,7 +95,10 @@ TEXT = {
                    "reachable - server state, an event of a connection that is not a participant of session x and does not ask to join x by id leaves x registered exactly as it was and delivers "
                    "nothing to its participants; ticks, the receipt consumer and new connections never touch a session), C03_history_frame (the same over any history), C03_local (a request's "
                    "deliveries and new session record are a function of the sender's own session record). Frame + locality are the unwinding conditions of noninterference; the trace-equivalence "
-                   "form itself (same streams with the other sessions' traffic removed) is NOT a Lean theorem here: it is measured on the real server by re-running histories without the outsiders. "
+                   "form itself is proved at the level of handled requests: C03_noninterference (Props/C03Trace.lean) - from servers that agree on a session, what its members are sent along a "
+                   "history equals what they are sent along the history with every request that does not concern the session removed; hypotheses: no receipts (the shared queue of C19), a member "
+                   "does not ask to join another session, one member only listens (the session does not end). The scheduler in front of the handlers (per-connection queues, frames) is not in that "
+                   "statement; the same equivalence is measured on the real server, scheduler included, by re-running histories without the outsiders. "
                    "Also measured: the frame of a session drives the connections of exactly its members (after sequential events and right after concurrent blocks), and a session created "
                    "within a concurrent block is not taken out of the registry by the end of the earlier holder of its number.",
              note=_std_note + " Reuse of a session id after the earlier session ended is covered through C07_fresh_session / C10 (uuid never reused) and by the cross-session monitors.",
